@@ -19,7 +19,7 @@ import os
 
 SURVEY = bool(os.environ.get("VERIF_SURVEY"))
 TOOL_ID = 3
-FAMILIES = ["truncate", "headflip", "replace", "inflate", "nesting", "random"]
+FAMILIES = ["truncate", "headflip", "replace", "inflate", "nesting", "growth", "random"]
 
 
 class StepCounter:
@@ -126,6 +126,8 @@ class Corrupt(Machine):
                     count = None
                 elif not swarm["fast_stack"]:
                     count = 6  # the un-seamed inspect population only shows that the seam hides nothing; keep it short
+                elif fam == "growth":
+                    count = s.choice([6, 12]) if tier == "quick" else s.choice([20, 40])  # large inputs: fewer of them
                 else:
                     count = s.choice([20, 40, 80]) if tier == "quick" else s.choice([100, 300, 600])
                 ops.append({"kind": "sweep", "i": len(ops), "env": f"env{e}", "family": fam, "count": count,
@@ -244,7 +246,7 @@ class Corrupt(Machine):
             return [rot.random_spec(s, data) for _ in range(op["count"] or 50)], False
         allspecs = {"truncate": rot.family_truncations, "headflip": rot.family_headflips,
                     "replace": rot.family_replacements, "inflate": rot.family_inflations,
-                    "nesting": rot.family_nesting}[fam](data)
+                    "nesting": rot.family_nesting, "growth": rot.family_growth}[fam](data)
         if op["count"] is None or op["count"] >= len(allspecs):
             return allspecs, True
         return s.sample(allspecs, op["count"]), False
